@@ -282,6 +282,52 @@ def rule_validation_before_write(ctx):
     run.check(okx, R, key(re_.module.relpath, re_.qualname, "extension-name-rule"), "2.1 extension type names are not checked",
               file=re_.module.relpath, line=re_.node.lineno, function=re_.qualname,
               expected="-ext suffix or extension-definition-- prefix", found="absent")
+    # a name admitted because it starts with 'extension-definition--' names an extension-definition OBJECT: the rest must be
+    # that object's identifier.  Sibling agreement: ExtensionsProperty.clean validates unregistered keys of that shape with
+    # _validate_id(key, version, prefix); the registration path must ask the same of the names it admits, or
+    # 'extension-definition--foo' is registrable and every object using it is written with an invalid extension key.
+    PFX = "extension-definition--"
+    sites = 0
+    for fi in sorted(prog.functions.values(), key=lambda f: f.id):
+        if fi.module.name not in (REG, "stix2.properties"):
+            continue
+        recv = sorted({norm(c.func.value) for c in body_walk(fi.node) if isinstance(c, ast.Call) and isinstance(c.func, ast.Attribute)
+                       and c.func.attr == "startswith" and c.args and isinstance(c.args[0], ast.Constant) and c.args[0].value == PFX})
+        for r_ in recv:
+            sites += 1
+            vcalls = []
+            for c in body_walk(fi.node):
+                if isinstance(c, ast.Call) and call_simple_name(c) == "_validate_id" and c.args and norm(c.args[0]) == r_ and any(
+                        isinstance(a_, ast.Constant) and a_.value == PFX for a_ in list(c.args) + [k.value for k in c.keywords]):
+                    pos = any(pol and ("%s.startswith('%s')" % (r_, PFX)) in [norm(v) for v in (
+                        tt.values if isinstance(tt, ast.BoolOp) and isinstance(tt.op, ast.And) else [tt])] for tt, pol, _ in guard_chain(c))
+                    if pos:
+                        vcalls.append(c)
+            okid = bool(vcalls)
+            path = None
+            if okid and fi.module.name == REG:
+                # ... on every path to the registry write
+                g = cfg_of(fi)
+                _maps, writes, _dups = _registry_facts(fi)
+                ifs = set()
+                for c in vcalls:
+                    n_ = c
+                    while n_ is not None and not (isinstance(n_, ast.If) and ("startswith('%s')" % PFX) in norm(n_.test)):
+                        n_ = getattr(n_, "parent", None)
+                    if n_ is not None:
+                        ifs.add(g.node_of(n_))
+                for w in writes:
+                    p_ = g.path_avoiding(g.entry, g.node_of(w), lambda n: n in ifs, labels_skip=("exc", "raise"))
+                    if p_ is not None:
+                        okid, path = False, g.describe_path(p_)
+            run.check(okid, R, key(fi.module.relpath, fi.qualname, "extension-definition-name-is-an-identifier:%s" % r_),
+                      "a name is admitted because it starts with '%s' but the rest is not validated as the identifier of an "
+                      "extension-definition object (the sibling site does): '%sfoo' is accepted, and objects using it are written "
+                      "with an invalid extension key" % (PFX, PFX), file=fi.module.relpath, line=fi.node.lineno, function=fi.qualname,
+                      expected="if %s.startswith('%s'): _validate_id(%s, <version>, '%s')" % (r_, PFX, r_, PFX),
+                      found="no such call" if not vcalls else "bypass", path=path)
+    if sites < 2:
+        raise AnalysisError("fewer than 2 sites admit names by the extension-definition prefix (%d): anchors lost" % sites)
     # objects / observables: type name checked by TypeProperty(type, spec_version) in the decorator table
     tp = prog.cls("stix2.properties::TypeProperty").methods["__init__"]
     run.check("_validate_type(type, spec_version)" in norm(tp.node), R, key(tp.module.relpath, tp.qualname, "validates-type-name"),
